@@ -366,8 +366,12 @@ def parseCfg (base : Cfg) (ws : List String) : Option Cfg :=
     match kv k ws with | none => some d | some t => t.toNat?
   let method : Option Method := match kv "method" ws with
     | some "base" => some .base | some "tproxy" => some .tproxy | none => some .tproxy | _ => none
-  let ns : List Bytes := match kv "ns" ws with
+  let ns0 : List Bytes := match kv "ns" ws with
     | none => [] | some "-" => [] | some t => (t.splitOn ",").map bytesOfStr
+  -- `rc=<hex>`: the remote host's /etc/resolv.conf; the list is what the parsing model finds in it
+  let ns : List Bytes := match (kv "rc" ws).bind bytesOfHex with
+    | some text => parseResolvConf text
+    | none => ns0
   let tons : Option (Option (Bytes × Nat)) := match kv "tons" ws with
     | none => some none | some "-" => some none
     | some t => match t.splitOn "@" with
